@@ -964,10 +964,14 @@ def c19(tier, rep):
     tp = fc.tok_programs(tier)
     fr2 = e2.run_family("c19tok", tp, extra_header=fp.HEADER)
     judge_family(rep, fr2)
+    kp = fc.chain_alloc_programs(tier)
+    fr4 = e2.run_family("c19chains", kp, extra_header=fc.ALLOC_HEADER)
+    judge_family(rep, fr4)
+    rep.set("exact_allocation_chain_programs", len(kp))
     rp = fc.rc_programs(tier) + fc.borrow_programs()
     fr3 = e2.run_family("c19bounds", rp, extra_header=fn.NEST_HEADER + fc.RC_PRE)
     judge_family(rep, fr3)
-    rep.set("rule", "allocation: int-only depth profiles n<=4,d<=3 (plain, capture-rich, wrapper steps; every failure subset for small try programs) in join!/try_join! under a counting global allocator with logging switched off: the macro evaluation is allocation-free exactly when the reference is; bounds: (i) depth profiles over a move-only, non-Clone, drop-logging token in all 12 macros (values, created/dropped counts and dropped-id multiset equal the reference); (ii) Rc values in the four non-spawning macros incl. 10- and 12-action single steps; (iii) & / &mut borrows of caller locals through step closures, wrapper closures, captures, branch values and handlers: the macro must compile wherever the reference does and agree with it (the universal type-level claim is decided for these shapes only)")
+    rep.set("rule", "exact allocation counts: every typed chain of length <= 2 (captured operands, `~` before none / the last / every operator, open iterator adaptors at step boundaries) allocates exactly as often as the documented method chain; allocation: int-only depth profiles n<=4,d<=3 (plain, capture-rich, wrapper steps; every failure subset for small try programs) in join!/try_join! under a counting global allocator with logging switched off: the macro evaluation is allocation-free exactly when the reference is; bounds: (i) depth profiles over a move-only, non-Clone, drop-logging token in all 12 macros (values, created/dropped counts and dropped-id multiset equal the reference); (ii) Rc values in the four non-spawning macros incl. 10- and 12-action single steps; (iii) & / &mut borrows of caller locals through step closures, wrapper closures, captures, branch values and handlers: the macro must compile wherever the reference does and agree with it (the universal type-level claim is decided for these shapes only)")
     sample_family(rep, ap, fr)
 
 
